@@ -16,7 +16,7 @@ PUMPS = [{'power': 0.224403, 'frequency': 205e12, 'propagation_direction': 'coun
 CHAINS = [
     'F80', 'F0.05', 'F10', 'F120', 'F200', 'F460', 'F1500', 'F80_F60', 'F40_U_F30', 'U_F60', 'F60_U', 'F30_U_U_F20',
     'E_F80', 'F80_E', 'F80_E_F70', 'Efull_F100_Efull', 'Etype_F100_Egain', 'Evoa_F90_Edp', 'F100lumped', 'F200lumped',
-    'F200att', 'F80perfreq', 'R80_E', 'F80_R80', 'F100_F100_F100',
+    'F200att', 'F80perfreq', 'R80_E', 'F80_R80', 'F100_F100_F100', 'Evoa_F100', 'Evoa_F70_F70',
 ]
 
 
@@ -50,6 +50,9 @@ def chain(kind, amp_low='std_low_gain', amp_med='std_medium_gain'):
         'R80_E': [raman_fiber(80), e()],
         'F80_R80': [f(80), raman_fiber(80)],
         'F100_F100_F100': [f(100), f(100, loss=0.21), f(100, loss=0.19)],
+        # operator VOA at the output of an otherwise automatic booster, followed only by automatic amplifiers
+        'Evoa_F100': [e(None, out_voa=2.0), f(100)],
+        'Evoa_F70_F70': [e(None, out_voa=3.5), f(70), f(70)],
     }
     return copy.deepcopy(table[kind])
 
@@ -70,6 +73,9 @@ SPAN_SPACE = {
 def library(case, base='test'):
     """equipment JSON with the Span / SI variations of the case applied"""
     eq = c.eqpt_json({'test': 'test', 'example': 'eqpt_config.json', 'multiband': 'eqpt_config_multiband.json'}[case.get('eq', base)])
+    if case.get('drop_ter'):
+        # the multiband library without its low-power '_ter' family
+        eq['Edfa'] = [e for e in eq['Edfa'] if not e['type_variety'].endswith('_ter')]
     sp = eq['Span'][0]
     sp['padding'] = case.get('padding', 10)
     sp['EOL'] = case.get('EOL', 0)
@@ -100,6 +106,8 @@ def library(case, base='test'):
 
 CB = {'f_min': 191.3e12, 'f_max': 196.1e12, 'spacing': 50e9}
 LB = {'f_min': 186.6e12, 'f_max': 190.0e12, 'spacing': 50e9}
+CBN = {'f_min': 191.3e12, 'f_max': 195.1e12, 'spacing': 50e9}
+LBN = {'f_min': 187.4e12, 'f_max': 190.0e12, 'spacing': 50e9}
 
 
 def roadm_params(case, sites):
@@ -108,6 +116,9 @@ def roadm_params(case, sites):
         return None
     b = case.get('bands', 'C')
     # 'CL_first': only the first site designs its egress links for two bands, 'CL_rest': every site but the first
+    if b == 'CLn':
+        # narrower C and L design bands that also fit the reduced-band amplifier models of the library
+        return {s: {'params': {'design_bands': [CBN, LBN]}} for s in sites}
     two = {'C': [], 'CL': list(sites), 'CL_first': list(sites[:1]), 'CL_rest': list(sites[1:])}[b]
     return {s: {'params': {'design_bands': [CB, LB] if s in two else [CB]}} for s in sites}
 
